@@ -12,18 +12,21 @@ PROP = dict(
                "creates/removes mount points on disk. Every planned change list is checked: each current entry exactly once kept or unmounted "
                "(detach for tmpfs/bind/rbind), kept+mounted = desired plus only rootfs and still-needed synthetic entries, unchanged entries not "
                "beneath a changed one are kept, rootfs never touched, no parent unmounted before a child that the harness saw mounted later, "
+               "nothing kept that was mounted after and beneath (or stacked on) an entry detached in the same update, "
                "same-origin mounts parent first and overname first; performed changes = planned changes, the saved profile holds exactly the "
-               "kept, reported synthetic and successfully mounted entries, a failing layout/overname change aborts without saving. "
+               "kept, reported synthetic and successfully mounted entries and nothing that is gone or duplicated by the harness's own account of "
+               "what is mounted, a failing layout/overname change aborts without saving. "
                "codec: ParseMountEntry(e.String()) == e, Unescape(Escape(s)) == s and profile text/file write->read identity for entries over an "
                "alphabet rich in blanks, backslashes, escape look-alikes, '#', Unicode white space and control characters; arbitrary lines never "
                "panic the parser. Sampled, not complete.",
     level_note="The planner and recorder are real; the effect of a change on the kernel mount table is simulated (mount order is tracked by the "
                "harness, mimic reports are modelled on planWritableMimic/execWritableMimic: one synthetic tmpfs per directory plus one synthetic "
                "bind per pre-existing directory/file in it). The saved order of the profile is judged only through the unmount-order clause of "
-               "later steps. An unchanged entry beneath a changed one may be kept or remounted (the statement leaves it open).",
+               "later steps. An entry counts as beneath another when it was mounted later under its directory or stacked on its very mount point.",
     rule="history: rapid draws a directory tree (0-6 nodes: dirs, files, symlinks) and 2-5 steps; each step's desired profile is derived from the "
          "previous one (keep / change source / change kind / drop each entry, add 0-4 new entries whose paths extend or look like existing ones, "
-         "unchanged profile, empty profile) plus a failure plan, a mimic plan (none / chosen mounts / read-only base) and whether mount points are "
+         "unchanged profile, empty profile; a quarter of the cases use the 'changed parent above a mimic' shape: a parent mount with 1-2 children on "
+         "missing mount points so that a mimic is reported at or one level below the parent, then the parent's source/kind/origin changes) plus a failure plan, a mimic plan (none / chosen mounts / read-only base) and whether mount points are "
          "materialised; desired lists are normalised to the stated domain (one entry per mount point, nothing nested beneath file/symlink entries, "
          "overname only on bind mounts, ensure-dir without origin). Non-trivial = some step keeps, unmounts and mounts entries at once while "
          "current+desired contain nested mount points. codec: 1-4 entries with fields built from a token alphabet (blank, tab, newline, backslash, "
